@@ -181,7 +181,9 @@ func c04ValidateInputs(leaf *model.Node) []c04Input {
 
 // c04Place wraps the leaf and its input in one of the placements.
 func c04Place(placement string, leaf *model.Node, in c04Input, mode string) (*model.Node, model.Val, bool) {
-	sib := func() *model.Node { return &model.Node{Kind: model.KString, Req: true, Tests: []model.TestSpec{ranTest}} }
+	sib := func() *model.Node {
+		return &model.Node{Kind: model.KString, Req: true, Tests: []model.TestSpec{ranTest}}
+	}
 	entry := func(k string) []model.KV {
 		if in.missing {
 			return nil
